@@ -59,7 +59,7 @@ type Program struct {
 	Abstracted       map[string]bool
 	footprints       map[*FuncInfo]*footprintT
 	peg              *pegTheory
-	Inventory []map[string]string
+	Inventory        []map[string]string
 	Repo             string
 	MutableGlobals   map[*types.Var]bool
 	WrittenMaps      map[*types.Var]bool
